@@ -5,5 +5,6 @@ func init() {
 		Rule{ID: "R01a", Doc: "bounds of every index/slice in the decode closure", Floor: 50, Run: r01a},
 		Rule{ID: "R01b", Doc: "no other panic source in the decode closure", Floor: 30, Run: r01b},
 		Rule{ID: "R01d", Doc: "every loop in the decode closure has a verified termination argument", Floor: 40, Run: r01d},
+		Rule{ID: "R01e", Doc: "decode errors are honoured", Floor: 40, Run: r01e},
 	)
 }
